@@ -103,9 +103,13 @@ def tla_rec(r, exp=None, pred=None, pp=None):
     o["exp"] = exp if exp is not None else []
     o["haspred"] = pred is not None
     o["pred"] = pred if pred is not None else []
-    if isinstance(pred, dict):        # LexSM/ParseSM item: {"toks": [...], "pp": {...}}
+    o["haspf"] = False
+    o["predfmt"] = ""
+    if isinstance(pred, dict):        # model item: {"toks": [...], "pp": {...} | None, "fmt": hex (SpokSyntax's printer)}
         o["pred"] = pred["toks"]
-        pp = pred["pp"]
+        pp = pred.get("pp")
+        if pred.get("fmt") is not None:
+            o["haspf"], o["predfmt"] = True, pred["fmt"]
     o["haspp"] = pp is not None
     o["pp"] = pp if pp is not None else {"k": "", "line": 0}
     o["hasdisk"] = False
@@ -189,6 +193,10 @@ def run(ctx):
         bad = bad + [i for i in v.get("FmtOnDisk_C07", []) if i not in set(bad)]
     drift = len(v.get("Drift_Toks", []))
     pdrift = len(v.get("Drift_Parse", []))
+    fdrift = len(v.get("Drift_Fmt", []))
+    if fdrift:
+        ctx.notes.append("model_drift: %d generated programs whose real formatter output differs from the canonical text SpokSyntax's printer denotes (first: %r)"
+                         % (fdrift, items[v["Drift_Fmt"][0]][0][:100]))
     if pdrift:
         ctx.notes.append("model_drift: %d inputs whose real parse outcome differs from ParseSM's prediction (first: %r)" % (pdrift, items[v["Drift_Parse"][0]][0][:80]))
     if drift:
@@ -247,7 +255,7 @@ def run(ctx):
                                            "C07": "inputs that parse", "C11": "inputs that parse", "C15": "parsed inputs containing a comment or docstring"}[pid]
                 + " (counted by TLC)",
         "model": model_info,
-        "judge": {"module": "SyntaxJudge", "relation": rel, "parsed": v.get("nParsed"), "errors": v.get("nErrors"), "token_stream_drift": drift, "parse_outcome_drift": pdrift},
+        "judge": {"module": "SyntaxJudge", "relation": rel, "parsed": v.get("nParsed"), "errors": v.get("nErrors"), "token_stream_drift": drift, "parse_outcome_drift": pdrift, "formatter_output_drift": fdrift},
         "selftest_corrupted_record_rejected": st,
         "exhaustive": True,
     }, assumptions=["white space between tokens of the generated inputs is ASCII white space", "hex-encoded strings are compared byte for byte",
